@@ -105,6 +105,48 @@ func drivePrimFixed(c *DriverCtx) error {
 	return nil
 }
 
+// Sweep of C13: every value length 0..N+1 for a range of widths (block boundaries 32/64/128/256
+// included), pad byte and side rotating.
+func drivePrimFixedSweep(c *DriverCtx) error {
+	r := c.G.R
+	widths := []int{}
+	for n := 0; n <= 40; n++ {
+		widths = append(widths, n)
+	}
+	widths = append(widths, 63, 64, 65, 96, 100, 127, 128, 129, 200, 255, 256, 257)
+	pads := []int{0x20, 0x30, 0x00, 0xff}
+	k := 0
+	for _, n := range widths {
+		ops := []Op{}
+		for l := 0; l <= n+1; l++ {
+			k++
+			pad := pads[k%len(pads)]
+			left := (k/len(pads))%2 == 1
+			s := make([]int, l)
+			for i := range s {
+				s[i] = 0x41 + r.Intn(26)
+			}
+			b := fmt.Sprintf("b%d", l)
+			ops = append(ops, Op{Op: "prim", B: b, Fn: "WriteFixedStringWithPadding", Args: map[string]any{"s": s, "n": n, "pad": pad, "left": left}},
+				Op{Op: "prim", B: b, Fn: "ReadFixedStringTrimPadding", Args: map[string]any{"n": n, "pad": pad, "left": left}})
+			if len(ops) >= 120 {
+				if err := c.Run(ops); err != nil {
+					return err
+				}
+				ops = []Op{}
+			}
+		}
+		if len(ops) > 0 {
+			if err := c.Run(ops); err != nil {
+				return err
+			}
+		}
+	}
+	return nil
+}
+
+func init() { Drivers["prim-fixed-sweep"] = drivePrimFixedSweep }
+
 // ---- C03 -----------------------------------------------------------------------------------
 
 var elemKinds = []struct {
@@ -349,6 +391,47 @@ func driveMsgLimits(c *DriverCtx) error {
 			}
 			if err := c.Run(ops); err != nil {
 				return err
+			}
+		}
+		// an over-long value INSIDE an element of an object list (and inside a nested part): the
+		// element's refusal must surface from the enclosing message
+		for _, t := range TypeNames() {
+			for _, f := range S.Types[t].Fields {
+				if f.Kind != "objlist" && f.Kind != "obj" {
+					continue
+				}
+				for _, ef := range S.Types[f.Type].Fields {
+					if !(ef.Kind == "list" || ef.Kind == "str") || ef.PW != 2 {
+						continue
+					}
+					c.G.Small = true
+					v := c.G.Value(t, Canon)
+					inner := c.G.Value(f.Type, Canon)
+					ok1 := c.G.Value(f.Type, Canon)
+					c.G.Small = false
+					if ef.Kind == "str" {
+						inner[ef.Name] = make([]int, n)
+					} else {
+						switch ef.Elem.Kind {
+						case "int":
+							inner[ef.Name] = rep(n, make([]int, ef.Elem.W))
+						default:
+							inner[ef.Name] = rep(n, ia())
+						}
+					}
+					if f.Kind == "objlist" {
+						v[f.Name] = []any{ok1, inner, ok1}
+					} else {
+						v[f.Name] = inner
+					}
+					ops := []Op{{Op: "new", O: "m", V: v}, {Op: "encode", B: "b", O: "m", Tag: fmt.Sprintf("%s.%s[..].%s len=%d", t, f.Name, ef.Name, n)}}
+					if n <= 65535 {
+						ops = append(ops, Op{Op: "decode", B: "b", O: "r", T: t, Fresh: true})
+					}
+					if err := c.Run(ops); err != nil {
+						return err
+					}
+				}
 			}
 		}
 		// object lists
